@@ -625,8 +625,7 @@ def replay_phase(ctx, flags_by, num, depth):
             if what is not None:
                 rs = steps[n]['resp']
                 sig = attribute(flags, path, rs['phase'], rs['f']) or {
-                    'kind': 'replay-divergence', 'path': path, 'backend': backend, 'action': rs['act'],
-                    'phase': rs['phase'], 'handler': handler_of(rs['f'])}
+                    'kind': 'replay-divergence', 'path': path, 'backend': backend, 'phase': rs['phase']}
                 ctx.violation(sig, '%s cache, %s path: the real application leaves the model (%s) at step %d: %s' % (
                     backend, path, flags_text(flags), n + 1, what),
                     {'kind': 'behaviour', 'mode': 'conformance', 'backend': backend, 'path': path, 'flags': _flags_json(flags),
@@ -795,8 +794,7 @@ def trace_phase(ctx, flags_by, ntraces, nsteps):
             if e['ev'] == 'get':
                 for ph in ([phase] if phase != 'create-or-refresh' else ['create', 'refresh']):
                     sig = sig or attribute(flags, path, ph, e['f'])
-            sig = sig or {'kind': 'trace-rejected', 'path': path, 'backend': backend, 'event': e['ev'], 'phase': phase,
-                          'handler': handler_of(e.get('f', '-'))}
+            sig = sig or {'kind': 'trace-rejected', 'path': path, 'backend': backend, 'phase': phase}
             ctx.violation(sig, '%s cache, %s path: recorded history is not a behaviour of HttpCond (%s) at event %d: %s' % (
                 backend, path, flags_text(flags), upto + 1, json.dumps({k: v for k, v in e.items() if k != 'raw'}, sort_keys=True)),
                 {'kind': 'trace', 'backend': backend, 'path': path, 'flags': _flags_json(flags), 'events': trs[i][:upto + 1]})
